@@ -65,7 +65,25 @@ pub fn run_case(cx: &mut Ctx) {
         let mut vars_shuffled = vars.clone();
         rng.shuffle(&mut vars_shuffled);
         let desc: Result<Desc, String> = match &via_opts {
-            Some((ns, sub, name)) => Opts::new(name.clone(), help.clone()).namespace(ns.clone()).subsystem(sub.clone()).const_labels(map).variable_labels(vars_shuffled.clone()).describe().map_err(|e| e.to_string()),
+            Some((ns, sub, name)) => {
+                let mut o = Opts::new(name.clone(), help.clone()).namespace(ns.clone()).subsystem(sub.clone());
+                // the builder's two ways of supplying labels: whole map / list, or one by one
+                if rng.chance(1, 2) {
+                    o = o.const_labels(map).variable_labels(vars_shuffled.clone());
+                } else {
+                    for (k, v) in map {
+                        o = o.const_label(k, v);
+                    }
+                    for v in &vars_shuffled {
+                        o = o.variable_label(v.clone());
+                    }
+                }
+                if o.fq_name() != fq {
+                    cx.violation("fq-name-differs-from-documented-join", "Opts::fq_name", format!("{:?} vs {:?}", o.fq_name(), fq), jobj! {"fq" => fq.clone()});
+                    return;
+                }
+                o.describe().map_err(|e| e.to_string())
+            }
             None => Desc::new(fq.clone(), help.clone(), vars_shuffled.clone(), map).map_err(|e| e.to_string()),
         };
         cx.part.evaluations += 1;
